@@ -142,6 +142,27 @@ func runProperty(p *Prog, prop, tier string, onlyFunc string) *PropRun {
 		names = []string{onlyFunc}
 	}
 	pr.Funcs = names
+	if onlyFunc == "" {
+		// induction base: every invariant clause this property relies on is established by a
+		// constructor contract that is proved under this property; otherwise say so
+		est := invEstablishers(p)
+		for tn, ts := range p.specs.Types {
+			if ts.PartOf != "" {
+				continue
+			}
+			have := false
+			for _, fn := range est[tn] {
+				if fs := p.specs.Funcs[fn]; fs != nil && specMentions(p, fs, prop) {
+					have = true
+				}
+			}
+			for _, c := range ts.Invs {
+				if hasProp(c.Props, prop) && len(c.Props) > 0 && !have {
+					pr.Notes["invariant "+tn+"."+c.Label+" is assumed at method entry but no constructor contract proved under "+prop+" establishes it (induction base missing)"] = true
+				}
+			}
+		}
+	}
 	if onlyFunc == "" || onlyFunc == "tables" {
 		tobls, tfuncs, terr := proveTableFacts(p, prop)
 		if terr != "" {
